@@ -41,7 +41,9 @@ LEVEL_TEXT = ("Lean theorems (all inputs, no size bound): FASTA round trip for e
               "round trip for any length and any sequence_start incl. negative; GFF percent-quoting (quote, _quote_value) "
               "invertible and delimiter-free, GFF line round trip for all strings, ID-grouped locations; index = "
               "reindex(lines) after set/replace/insert/delete for FastaFile, FastqFile, GFFFile and GenBankFile. Gen "
-              "obligations on _NOT_QUOTED, _OFFSETS, GenBank column constants. Executable model tied to the real classes "
+              "obligations (regenerated with ast on every run): _NOT_QUOTED, _OFFSETS, column constants, line-start characters, "
+              "score guard, regexes, location keywords/separators, GenBankFile widths and limits, GFF literals, Defect members, "
+              "every default value, and a structural fingerprint of all 104 anchored functions. Executable model tied to the real classes "
               "op by op (incl. get_annotation/set_annotation/set_sequence at line level); oracle write->read on whole "
               "formats. Not proved (oracle only): Sequence-object conversion, LOCUS line, GenPept specifics")
 LEVEL_NOTE = "see notes/C12.md: 13 defects found and repaired in /repo (fix: commits), no open known findings"
